@@ -1328,6 +1328,106 @@ fn main() {
 		}
 	}
 
+	// ---- size boundaries: aggregates and blocks of exactly the maximal weight, and an aggregate
+	// with more than a thousand outputs (validated without a weight limit)
+	{
+		let max_tx = global::max_tx_weight();
+		let max_blk = global::max_block_weight();
+		let mut lim: Vec<Transaction> = vec![];
+		// weight of a 1-in/1-out tx is 1 + 21 + 3 = 25; fill up to exactly max_tx with one wider tx
+		let n25 = (max_tx / 25) as usize - 1;
+		for _ in 0..n25 {
+			let (k1, k2) = (w.fresh_key(), w.fresh_key());
+			lim.push(w.build_tx(&[(1000, k1)], &[(990, k2)], KernelFeatures::Plain { fee: 10u32.into() }, OffMode::Random, None));
+		}
+		let rest = max_tx - 25 * n25 as u64; // 26..50: extra inputs on the last tx
+		let extra_in = (rest - 25) as usize;
+		let mut ins = vec![];
+		for _ in 0..(1 + extra_in) {
+			ins.push((500u64, w.fresh_key()));
+		}
+		let total: u64 = ins.iter().map(|x| x.0).sum();
+		let ko = w.fresh_key();
+		lim.push(w.build_tx(&ins, &[(total - 10, ko)], KernelFeatures::Plain { fee: 10u32.into() }, OffMode::Random, None));
+		for order in 0..2 {
+			let mut ts = lim.clone();
+			if order == 1 {
+				ts.reverse();
+			}
+			match transaction::aggregate(&ts) {
+				Ok(agg) => {
+					let wgt = agg.weight();
+					let v = agg.validate(Weighting::AsTransaction);
+					out.raw(&format!("#STAT boundary: aggregate of {} transactions has weight {} (limit {}): validate = {:?}", ts.len(), wgt, max_tx, v.as_ref().map(|_| ()).map_err(err_name)));
+					if wgt == max_tx && v.is_err() {
+						oracle_fail(&mut out, &mut w.st, &format!("aggregate of valid transactions with weight exactly the transaction limit {} is refused: {}", max_tx, err_name(v.as_ref().unwrap_err())));
+					}
+					// the block built from them has exactly the maximal block weight
+					let prev = BlockHeader::default();
+					let fees: u64 = ts.iter().map(|t| t.fee()).sum();
+					let kr = w.fresh_key();
+					let (rout, rkern) = reward::output(w.kc, &w.pb, &kr, fees, false).unwrap();
+					match Block::from_reward(&prev, &ts, rout, rkern, Difficulty::min_dma()) {
+						Ok(b) => {
+							let bw = b.body.weight();
+							let bv = b.validate(&prev.total_kernel_offset());
+							out.raw(&format!("#STAT boundary: block weight {} (limit {}): validate = {:?}", bw, max_blk, bv.as_ref().map(|_| ()).map_err(block_err_name)));
+							if bw == max_blk && bv.is_err() {
+								oracle_fail(&mut out, &mut w.st, &format!("block of valid transactions with weight exactly the block limit {} is refused: {}", max_blk, block_err_name(bv.as_ref().unwrap_err())));
+							}
+							let cb: CompactBlock = b.clone().into();
+							match Block::hydrate_from(cb, &ts) {
+								Ok(hb) => {
+									if hb.body != b.body || hb.validate(&prev.total_kernel_offset()).is_err() {
+										oracle_fail(&mut out, &mut w.st, "block of exactly the maximal weight does not re-hydrate to the identical valid block");
+									}
+								}
+								Err(e) => oracle_fail(&mut out, &mut w.st, &format!("block of exactly the maximal weight does not re-hydrate: {}", block_err_name(&e))),
+							}
+						}
+						Err(e) => oracle_fail(&mut out, &mut w.st, &format!("block of exactly the maximal weight cannot be built: {}", block_err_name(&e))),
+					}
+				}
+				Err(e) => oracle_fail(&mut out, &mut w.st, &format!("aggregate at the weight limit fails: {}", err_name(&e))),
+			}
+		}
+		// one input more: over the limit, must be refused as a transaction
+		{
+			let (k1, k2) = (w.fresh_key(), w.fresh_key());
+			let mut ts = lim.clone();
+			ts.push(w.build_tx(&[(1000, k1)], &[(990, k2)], KernelFeatures::Plain { fee: 10u32.into() }, OffMode::Random, None));
+			if let Ok(agg) = transaction::aggregate(&ts) {
+				if agg.validate(Weighting::AsTransaction).is_ok() {
+					oracle_fail(&mut out, &mut w.st, &format!("aggregate of weight {} above the transaction limit {} validates as a transaction", agg.weight(), max_tx));
+				}
+			}
+		}
+		// more than a thousand outputs in one body
+		let per = 126usize;
+		let ntx = if thorough { 9 } else { 8 };
+		let mut big: Vec<Transaction> = vec![];
+		for _ in 0..ntx {
+			let kin = w.fresh_key();
+			let mut outs = vec![];
+			for _ in 0..per {
+				outs.push((7u64, w.fresh_key()));
+			}
+			big.push(w.build_tx(&[(7 * per as u64 + 50, kin)], &outs, KernelFeatures::Plain { fee: 50u32.into() }, OffMode::Random, None));
+		}
+		for k in [ntx - 1, ntx] {
+			match transaction::aggregate(&big[..k]) {
+				Ok(agg) => {
+					let v = agg.validate(Weighting::NoLimit);
+					out.raw(&format!("#STAT boundary: aggregate with {} outputs: validate(NoLimit) = {:?}", agg.outputs().len(), v.as_ref().map(|_| ()).map_err(err_name)));
+					if v.is_err() {
+						oracle_fail(&mut out, &mut w.st, &format!("aggregate of {} valid transactions with {} outputs in all is refused: {}", k, agg.outputs().len(), err_name(v.as_ref().unwrap_err())));
+					}
+				}
+				Err(e) => oracle_fail(&mut out, &mut w.st, &format!("aggregate of {} large transactions fails: {}", k, err_name(&e))),
+			}
+		}
+	}
+
 	let st = &w.st;
 	out.raw(&format!(
 		"#STAT cases={} independent={} chained={} with-conflicts={} with-multikernel-operand={} with-v2-operand={} sizes={:?}",
